@@ -303,6 +303,9 @@ void runSizedSave(const Opts& o, long idx, CaseLog& log) {
         for (int i = 0; i < np; ++i) pts.point_nonConst((size_t)i).name("S" + std::to_string(i));   // named, coordinates never set
         ezc3d::DataNS::AnalogsNS::Analogs an((size_t)ns);                         // ns default sub-frames
         for (int s = 0; s < ns; ++s) an.subframe_nonConst((size_t)s) = ezc3d::DataNS::AnalogsNS::SubFrame((size_t)nc);   // nc default channels, values never set
+        // every third object: the later sub-frames hold one channel fewer (frame() looks at sub-frame 0 only, so the object is reachable);
+        // whatever the writer makes of it, the bytes must come from the object, not from the heap
+        if (idx % 3 == 2) for (int s = 1; s < ns; ++s) { ezc3d::DataNS::AnalogsNS::SubFrame sf; for (int k = 0; k + 1 < nc; ++k) { ezc3d::DataNS::AnalogsNS::Channel ch; ch.name("Z" + std::to_string(k)); ch.data(0.25f * (float)(k + s)); sf.channel(ch); } an.subframe_nonConst((size_t)s) = sf; }
         ezc3d::DataNS::Frame fr; fr.add(pts, an);
         log.pre("frame"); VF_TRY(fo, c.frame(fr));
     }
